@@ -592,3 +592,66 @@ func ssaFuncOfDecl(p *core.Program, rel, declName string) *ssa.Function {
 	}
 	return nil
 }
+
+// resolveSingleDef: when e is a local variable of fd that is defined exactly
+// once (`x := <expr>`, never assigned again, address never taken), returns the
+// defining expression and its position; otherwise e itself.
+func resolveSingleDef(info *types.Info, fd *ast.FuncDecl, e ast.Expr, pos token.Pos) (ast.Expr, token.Pos) {
+	for i := 0; i < 4; i++ {
+		id, ok := ast.Unparen(e).(*ast.Ident)
+		if !ok || fd == nil || fd.Body == nil {
+			return e, pos
+		}
+		obj, ok := info.Uses[id].(*types.Var)
+		if !ok || obj.IsField() {
+			return e, pos
+		}
+		var def ast.Expr
+		var defPos token.Pos
+		n, other := 0, false
+		ast.Inspect(fd.Body, func(nd ast.Node) bool {
+			switch x := nd.(type) {
+			case *ast.AssignStmt:
+				for j, l := range x.Lhs {
+					li, ok := l.(*ast.Ident)
+					if !ok {
+						continue
+					}
+					if info.Defs[li] == obj && len(x.Lhs) == len(x.Rhs) {
+						def, defPos = x.Rhs[j], x.Pos()
+						n++
+					} else if info.Uses[li] == obj || info.Defs[li] == obj {
+						other = true
+					}
+				}
+			case *ast.ValueSpec:
+				for j, nm := range x.Names {
+					if info.Defs[nm] == obj {
+						if j < len(x.Values) {
+							def, defPos = x.Values[j], x.Pos()
+							n++
+						} else {
+							other = true
+						}
+					}
+				}
+			case *ast.UnaryExpr:
+				if x.Op == token.AND {
+					if ui, ok := ast.Unparen(x.X).(*ast.Ident); ok && info.Uses[ui] == obj {
+						other = true
+					}
+				}
+			case *ast.IncDecStmt:
+				if ui, ok := ast.Unparen(x.X).(*ast.Ident); ok && info.Uses[ui] == obj {
+					other = true
+				}
+			}
+			return true
+		})
+		if n != 1 || other || def == nil {
+			return e, pos
+		}
+		e, pos = def, defPos
+	}
+	return e, pos
+}
